@@ -41,14 +41,37 @@ PY_KIND = {"cores": "tensors", "modes": "ints", "row-modes": "ints", "ranks": "i
            "kickrank": "int", "kick2": "int", "local_iterations": "int", "resets": "int", "verbose": "bool", "preconditioner": "int"}
 
 
-def _py_role(e: ast.AST):
-    """role of a python argument expression; `[] if y0 is None else y0.cores` -> role of the non-empty alternative"""
+def _py_role(e: ast.AST, fnode=None, depth=0):
+    """role of a python argument expression; `[] if y0 is None else y0.cores` -> role of the non-empty alternative; a local name takes
+    the role of what is assigned to it (`x_cores = x0.cores` / `[]`, `prec = 0 | 1 | 2` under tests of `preconditioner`)"""
     if isinstance(e, ast.IfExp):
-        a, b = _py_role(e.body), _py_role(e.orelse)
+        a, b = _py_role(e.body, fnode, depth), _py_role(e.orelse, fnode, depth)
         return b if a in (None, "empty") else a
     if isinstance(e, ast.List) and not e.elts:
         return "empty"
-    return PY_ROLE.get(norm(e))
+    t = norm(e)
+    t = {"x0.cores": "x_cores", "x0.R": "x_R"}.get(t, t)
+    if t in PY_ROLE:
+        return PY_ROLE[t]
+    if isinstance(e, ast.Name) and fnode is not None and depth < 2:
+        roles = set()
+        for n in ast.walk(fnode):
+            if isinstance(n, ast.Assign) and len(n.targets) == 1 and isinstance(n.targets[0], ast.Name) and n.targets[0].id == e.id:
+                v = n.value
+                if isinstance(v, ast.Constant) and isinstance(v.value, int):
+                    roles.add("const-int")
+                elif isinstance(v, ast.BinOp) and isinstance(v.op, ast.Mult) and any(isinstance(x, ast.List) for x in (v.left, v.right)):
+                    roles.add("empty")          # [1] * (1 + len(A.N)): the ranks of the default (empty) initial guess
+                else:
+                    roles.add(_py_role(v, fnode, depth + 1))
+        roles.discard("empty")
+        if roles == {"const-int"}:
+            tests = [norm(x.test) for x in ast.walk(fnode) if isinstance(x, ast.If)]
+            if any("preconditioner" in x for x in tests):
+                return "preconditioner"
+        if len(roles) == 1 and None not in roles and "const-int" not in roles:
+            return next(iter(roles))
+    return None
 
 
 def rule_bind(model: Model, unit: CppUnit):
@@ -84,10 +107,13 @@ def rule_bind(model: Model, unit: CppUnit):
                               f"{fs} passes {len(c.args)} positional arguments to {cf.name}, which takes {len(cf.params)} (cpp/{cf.file}:{cf.line}): TypeError when the backend is enabled"))
                 continue
             roles = CPP_ROLE.get(cf.name, {})
+            pinned = list(roles.values())         # role of each position on the pinned tree
             for i, (a, (ctype, cname)) in enumerate(zip(c.args, cf.params)):
                 kk = f"{k}:arg{i}"
-                pr = _py_role(a)
+                pr = _py_role(a, f.node)
                 cr = roles.get(cname)
+                if cr is None and i < len(pinned) and PY_KIND.get(pinned[i].split("(")[0], "?") == kind_of_type(ctype):
+                    cr = pinned[i]            # a renamed C++ parameter: same position, same kind as confirmed
                 ckind = kind_of_type(ctype)
                 if pr is None or cr is None or ckind == "?":
                     obs.append(Ob("BIND-ARG", kk, ERROR, model.where(f, c), f"{norm(a)} -> {ctype} {cname}",
@@ -113,7 +139,13 @@ def rule_prec_table(model: Model, unit: CppUnit):
     for src in unit.files.values():
         consts.update(defines(src))
     want = {"None": "NO_PREC", "'c'": "C_PREC", "'r'": "R_PREC"}
-    # python: value of `prec` per preconditioner value (if / elif chain or dict)
+    # the code variable: whatever is passed at the position of the C++ parameter `preconditioner` (the last one)
+    pv = "prec"
+    for n in ast.walk(f.node):
+        if isinstance(n, ast.Call) and isinstance(n.func, ast.Attribute) and isinstance(n.func.value, ast.Name) and n.func.value.id == "torchttcpp" \
+                and n.func.attr == "amen_solve" and n.args and isinstance(n.args[-1], ast.Name):
+            pv = n.args[-1].id
+    # python: value of that variable per preconditioner value (if / elif chain)
     table = {}
     covered = set()
     for n in ast.walk(f.node):
@@ -133,11 +165,11 @@ def rule_prec_table(model: Model, unit: CppUnit):
                 t = c.test
                 if isinstance(t, ast.Compare) and norm(t.left) == "preconditioner" and len(t.comparators) == 1 and isinstance(t.comparators[0], ast.Constant):
                     for s in c.body:
-                        if isinstance(s, ast.Assign) and norm(s.targets[0]) == "prec" and isinstance(s.value, ast.Constant):
+                        if isinstance(s, ast.Assign) and norm(s.targets[0]) == pv and isinstance(s.value, ast.Constant):
                             vals[repr(t.comparators[0].value)] = s.value.value
             last = chain[-1]
             for s in last.orelse:
-                if isinstance(s, ast.Assign) and norm(s.targets[0]) == "prec" and isinstance(s.value, ast.Constant):
+                if isinstance(s, ast.Assign) and norm(s.targets[0]) == pv and isinstance(s.value, ast.Constant):
                     vals["<else>"] = s.value.value
             if vals:
                 table = vals
@@ -163,36 +195,57 @@ def rule_prec_table(model: Model, unit: CppUnit):
     return obs
 
 
+def _split_dispatch(f):
+    """(branch node, condition for the compiled path as (polarity, test), statements of the compiled path, statements of the python path).
+    Recognises `if C: <cpp> else: <py>` and the early-return forms `if not C: return <py>` ; <cpp>  /  `if C: <cpp, returns>` ; <py>."""
+    body = f.node.body
+    for i, st in enumerate(body):
+        if isinstance(st, ast.If) and any(isinstance(x, ast.Name) and x.id == "_flag_use_cpp" for x in ast.walk(st.test)):
+            test, pol = st.test, True
+            while isinstance(test, ast.UnaryOp) and isinstance(test.op, ast.Not):
+                test, pol = test.operand, not pol
+            then, other = st.body, st.orelse
+            if not other:
+                ends = bool(then) and isinstance(then[-1], (ast.Return, ast.Raise))
+                if not ends:
+                    return None
+                other = body[i + 1:]
+            cpp, py = (then, other) if pol else (other, then)
+            return st, test, cpp, py
+    return None
+
+
 def rule_dispatch(model: Model):
     obs = []
     for fs, pyimpl in (("solvers.amen_solve", "_amen_solve_python"), ("_dmrg.dmrg_matvec", "dmrg_matvec_python")):
         f = model.func(fs)
-        branches = [n for n in f.node.body if isinstance(n, ast.If) and any(isinstance(x, ast.Name) and x.id == "_flag_use_cpp" for x in ast.walk(n.test))]
         k = f"{fs}:DISPATCH"
-        if len(branches) != 1:
-            obs.append(Ob("DISPATCH", k + ":branch", ERROR, model.where(f), fs, "backend branch `if use_cpp and _flag_use_cpp` not found at the top level"))
+        sp = _split_dispatch(f)
+        if sp is None:
+            obs.append(Ob("DISPATCH", k + ":branch", ERROR, model.where(f), fs, "backend branch on `use_cpp and _flag_use_cpp` not found at the top level"))
             continue
-        br = branches[0]
-        names = {x.id for x in ast.walk(br.test) if isinstance(x, ast.Name)}
-        conj = isinstance(br.test, ast.BoolOp) and isinstance(br.test.op, ast.And)
+        br, test, cpp_side, py_side = sp
+        names = {x.id for x in ast.walk(test) if isinstance(x, ast.Name)}
+        conj = isinstance(test, ast.BoolOp) and isinstance(test.op, ast.And)
         ok = conj and {"use_cpp", "_flag_use_cpp"} <= names
         obs.append(Ob("DISPATCH", k + ":condition", OK if ok else VIOLATED, model.where(f, br), norm(br.test),
                       "compiled path only when requested and available" if ok else
-                      f"the compiled path is selected by `{norm(br.test)}`: it must require both the caller's use_cpp and the import flag "
+                      f"the compiled path is selected by `{norm(test)}`: it must require both the caller's use_cpp and the import flag "
                       "(otherwise NameError without the extension, or the flag is ignored)"))
-        cpp_side = br.body
-        raises = [x for s in cpp_side for x in ast.walk(s) if isinstance(x, ast.Raise)]
-        raises += [x for s in br.orelse for x in ast.walk(s) if isinstance(x, ast.Raise)]
+        raises = [x for st in cpp_side for x in ast.walk(st) if isinstance(x, ast.Raise)]
+        raises += [x for st in py_side for x in ast.walk(st) if isinstance(x, ast.Raise)]
         obs.append(Ob("DISPATCH", k + ":common-validation", VIOLATED if raises else OK, model.where(f, raises[0]) if raises else model.where(f, br),
                       norm(raises[0])[:80] if raises else "all rejections precede the backend choice",
                       f"{fs} rejects an input (`{norm(raises[0])[:80]}`) inside one backend branch only: the other backend accepts the same input, "
                       "so the two backends do not accept the same inputs" if raises else "validation is common to both backends"))
-        calls_py = any(isinstance(x, ast.Call) and norm(x.func).endswith(pyimpl) for s in br.orelse for x in ast.walk(s))
-        cpp_ret = [x for s in cpp_side for x in ast.walk(s) if isinstance(x, ast.Return)]
+        calls_py = any(isinstance(x, ast.Call) and norm(x.func).endswith(pyimpl) for st in py_side for x in ast.walk(st))
+        uses_cpp = any(isinstance(x, ast.Attribute) and isinstance(x.value, ast.Name) and x.value.id == "torchttcpp" for st in cpp_side for x in ast.walk(st))
+        cpp_ret = [x for st in cpp_side for x in ast.walk(st) if isinstance(x, ast.Return)]
         wrapped = bool(cpp_ret) and all(isinstance(r.value, ast.Call) and norm(r.value.func).endswith("TT") for r in cpp_ret)
-        obs.append(Ob("DISPATCH", k + ":paths", OK if calls_py and wrapped else VIOLATED, model.where(f, br), "else -> python implementation; cpp -> TT(list(cores))",
-                      "both paths return a TT object" if calls_py and wrapped else
-                      "the dispatcher no longer falls back to the Python implementation / no longer wraps the compiled result in TT(...)"))
+        good = calls_py and wrapped and uses_cpp
+        obs.append(Ob("DISPATCH", k + ":paths", OK if good else VIOLATED, model.where(f, br), "python path -> python implementation; compiled path -> TT(list(cores))",
+                      "both paths return a TT object" if good else
+                      "the dispatcher no longer falls back to the Python implementation / no longer calls the extension on the compiled path / no longer wraps its result in TT(...)"))
     return obs
 
 
@@ -227,26 +280,56 @@ def rule_constants(model: Model, unit: CppUnit):
         cf = unit.func("amen_solve.h", "amen_solve")
     except CppUnmodelled as e:
         return [Ob("CPP-CONST", "cpp:CPP-CONST:amen_solve", ERROR, "cpp/amen_solve.h", "amen_solve", str(e))]
-    py = {norm(n.targets[0]): norm(n.value) for n in ast.walk(f.node) if isinstance(n, ast.Assign) and isinstance(n.targets[0], ast.Name)
-          and n.targets[0].id in ("real_tol", "damp")}
-    cpp = {}
-    for m in re.finditer(r"\b(?:double|auto|float|int|uint64_t)\s+(real_tol|damp)\s*=\s*([^;]+);", cf.body):
-        cpp[m.group(1)] = m.group(2).strip()
-    for name in ("real_tol", "damp"):
-        k = f"cpp:CPP-CONST:{name}"
-        if name not in py or name not in cpp:
-            obs.append(Ob("CPP-CONST", k, ERROR, f"cpp/{cf.file}", name, f"definition of {name} not found on both sides (python: {py.get(name)}, C++: {cpp.get(name)})"))
-            continue
+    # python: the local tolerance of the local solves is recognised by its normal form (eps^1 * order^-1/2 * constant), whatever it is called
+    from .. import allowance as al
+    nz = al.Normaliser(model, f, ("eps",))
+    py_forms = []
+    for n in ast.walk(f.node):
+        if isinstance(n, ast.Assign) and len(n.targets) == 1 and isinstance(n.targets[0], ast.Name):
+            ms = nz.monos(n.value, nz.env_at(n))
+            if ms and len(ms) == 1 and ms[0].exps.get("EPS:eps") == 1 and any(k_.startswith("len(") and v == Fraction(-1, 2) for k_, v in ms[0].exps.items()) \
+                    and len(ms[0].exps) == 2:
+                py_forms.append((n, ms[0]))
+    cpp_defs = {m.group(1): m.group(2).strip() for m in re.finditer(r"\b(?:double|auto|float|int|uint64_t)\s+(\w+)\s*=\s*([^;]+);", cf.body)}
+    k = "cpp:CPP-CONST:real_tol"
+    cpp_tol = [(nm, tx) for nm, tx in cpp_defs.items() if re.search(r"\beps\b", tx) and "sqrt" in tx]
+    if not py_forms or not cpp_tol:
+        obs.append(Ob("CPP-CONST", k, ERROR, f"cpp/{cf.file}", "local tolerance", f"the tolerance of the local solves (eps / sqrt(d) / damp) was not recognised on both sides "
+                      f"(python: {[norm(n) for n, _ in py_forms]}, C++: {cpp_tol})"))
+    else:
+        pn, pm = py_forms[0]
         try:
-            a, b = _monomial(py[name]), _monomial(cpp[name])
+            cm = _monomial(cpp_tol[0][1])
+            coef = Fraction(1)
+            exps = {}
+            for a_, v in cm.items():
+                if a_.startswith("#"):
+                    coef *= Fraction(a_[1:]) ** int(v) if v.denominator == 1 else Fraction(1)
+                elif a_ in cpp_defs and re.fullmatch(r"[\d.]+", cpp_defs[a_]):
+                    coef *= Fraction(cpp_defs[a_]) ** int(v)
+                else:
+                    exps[a_] = v
+            same = coef == pm.coef and exps.get("eps") == 1 and sorted(v for k_, v in exps.items() if k_ != "eps") == [Fraction(-1, 2)]
+            obs.append(Ob("CPP-CONST", k, OK if same else VIOLATED, f"cpp/{cf.file}:{cf.line}", f"{norm(pn)}  |  {cpp_tol[0][0]} = {cpp_tol[0][1]}",
+                          f"both sides use {pm.show()}" if same else
+                          f"the tolerance of the local solves differs between the backends: Python `{norm(pn)}` normalises to {pm.show()}, C++ `{cpp_tol[0][1]}` to "
+                          f"{coef} * {exps}: the local solves and truncations of the compiled solver work to a different tolerance"))
         except CppUnmodelled as e:
-            obs.append(Ob("CPP-CONST", k, ERROR, f"cpp/{cf.file}", name, str(e)))
-            continue
-        ok = a == b
-        obs.append(Ob("CPP-CONST", k, OK if ok else VIOLATED, f"cpp/{cf.file}:{cf.line}", f"{name}: {py[name]}  |  {cpp[name]}",
-                      "same normal form on both sides" if ok else
-                      f"{name} differs between the backends: Python `{py[name]}` vs C++ `{cpp[name]}` - the local solves and truncations of the compiled "
-                      "solver work to a different tolerance"))
+            obs.append(Ob("CPP-CONST", k, ERROR, f"cpp/{cf.file}", "local tolerance", str(e)))
+    # the damping factor itself (used in the truncation test): a numeric constant on both sides, same value
+    k = "cpp:CPP-CONST:damp"
+    py_consts = {n.targets[0].id: n.value.value for n in f.node.body if isinstance(n, ast.Assign) and isinstance(n.targets[0], ast.Name)
+                 and isinstance(n.value, ast.Constant) and isinstance(n.value.value, (int, float)) and not isinstance(n.value.value, bool)}
+    used = set()
+    for n, _ in py_forms:
+        used |= {x.id for x in ast.walk(n.value) if isinstance(x, ast.Name) and x.id in py_consts}
+    cused = {nm for nm in cpp_defs if cpp_tol and re.search(r"\b" + nm + r"\b", cpp_tol[0][1]) and re.fullmatch(r"[\d.]+", cpp_defs[nm])}
+    if len(used) == 1 and len(cused) == 1:
+        a_, b_ = py_consts[next(iter(used))], float(cpp_defs[next(iter(cused))])
+        obs.append(Ob("CPP-CONST", k, OK if float(a_) == b_ else VIOLATED, f"cpp/{cf.file}:{cf.line}", f"damping factor {a_} | {b_}",
+                      "same damping factor" if float(a_) == b_ else f"the damping factor differs between the backends (Python {a_}, C++ {b_})"))
+    else:
+        obs.append(Ob("CPP-CONST", k, ERROR, f"cpp/{cf.file}", "damping factor", f"damping constant not recognised (python {sorted(used)}, C++ {sorted(cused)})"))
     # rank selector: homogeneous test (sum of squares against eps squared)
     try:
         rc = unit.func("ortho.h", "rank_chop")
